@@ -389,6 +389,14 @@ class SymEx:
                     out.add(n.value.id)
         return out
 
+    def _stored_names(self, stmts):
+        out = set()
+        for s in stmts:
+            for n in ast.walk(s):
+                if isinstance(n, ast.Name) and isinstance(n.ctx, (ast.Store, ast.Del)):
+                    out.add(n.id)
+        return out
+
     def loop(self, s, st):
         lid = next(self.uid)
         is_for = isinstance(s, ast.For)
@@ -399,6 +407,7 @@ class SymEx:
                 out.append((x, None))
                 continue
             body_names = self._assigned_names(s.body)
+            body_names = {n for n in body_names if n in self._stored_names(s.body) or (n in x.env and _is_local_container(x.env[n]))}
             tgt_names = self._assigned_names([s.target]) if is_for else set()
             carried = {n for n in body_names if n in x.env and n not in tgt_names}
             # body state: loop-carried locals are fresh symbols ('lc', name, id)
@@ -1231,12 +1240,53 @@ class Valuation:
     order: {(a, b): '<'|'='|'>'} over fmt()-rendered operands;   facts: {rendered test: bool}.
     """
 
-    def __init__(self, order=None, facts=None, isnone=None, member=None):
+    def __init__(self, order=None, facts=None, isnone=None, member=None, nums=None):
         self.order = dict(order or {})
         self.facts = dict(facts or {})
         self.isnone = dict(isnone or {})
         self.member = dict(member or {})
+        self.nums = dict(nums or {})
         self.unknown = []
+
+    def value(self, t):
+        """concrete number of a term under `nums`, or None"""
+        from fractions import Fraction
+        if t[0] == 'num':
+            return t[1]
+        s = fmt(t)
+        if s in self.nums:
+            return Fraction(self.nums[s])
+        if t[0] == 'rat':
+            try:
+                r = t[1].subst(lambda a: (T.R(T.p_const(self.value(a))) if self.value(a) is not None else None))
+            except ZeroDivisionError:
+                return None
+            if r.is_const():
+                return r.const()
+        return None
+
+    def evalbool(self, t):
+        """truth value of a boolean term under this valuation, or None"""
+        tv = truth(t)
+        if tv is not None:
+            return tv
+        h = t[0]
+        if h == 'not':
+            x = self.evalbool(t[1])
+            return None if x is None else not x
+        if h in ('and', 'or'):
+            vs = [self.evalbool(z) for z in t[1]]
+            if h == 'and':
+                if any(v is False for v in vs):
+                    return False
+                return None if None in vs else True
+            if any(v is True for v in vs):
+                return True
+            return None if None in vs else False
+        if h == 'ite':
+            c = self.evalbool(t[1])
+            return None if c is None else self.evalbool(t[2] if c else t[3])
+        return self(t)
 
     def rel(self, a, b):
         if (a, b) in self.order:
@@ -1249,6 +1299,10 @@ class Valuation:
         s = fmt(t)
         if s in self.facts:
             return self.facts[s]
+        if t[0] == 'cmp' and self.nums and t[1] in ('<', '<=', '=='):
+            x, y = self.value(t[2]), self.value(t[3])
+            if x is not None and y is not None:
+                return {'<': x < y, '<=': x <= y, '==': x == y}[t[1]]
         if t[0] == 'cmp':
             op, a, b = t[1], fmt(t[2]), fmt(t[3])
             if op in ('<', '<=', '=='):
@@ -1268,3 +1322,19 @@ class Valuation:
                     return self.member[(a, b)]
         self.unknown.append(s)
         return None
+
+
+def eval_property(sx, fn_context, clsname, prop, self_term, state):
+    """Evaluate `<self_term>.<prop>` (a @property or method-less field of class clsname) in `state` -> list of (state, term)."""
+    c = sx.M.cls(clsname)
+    m = c.lookup(prop) if c else None
+    if m is None:
+        k = ('attr', self_term, prop)
+        return [(state, state.heap.get(k, k))]
+    sx.frames.append(fn_context)
+    try:
+        fake = ast.Attribute(value=ast.Name(id='self', ctx=ast.Load()), attr=prop, ctx=ast.Load())
+        fake.lineno = m.node.lineno
+        return sx.inline(m, {}, self_term, state, fake)
+    finally:
+        sx.frames.pop()
